@@ -576,6 +576,18 @@ func (vc *VC) contractCall(fr *frame, st *State, site ssa.Instruction, fc *FuncC
 	for _, a := range fc.Allocates {
 		freshComps = append(freshComps, vc.compsWithPrefix(pre, a)...)
 	}
+	// ghost assignments at return may touch ghost fields of objects the callee allocated
+	for _, gs := range fc.GhostSets {
+		if sel, ok := gs.Lhs.(ESel); ok {
+			for g := range vc.w.ghosts {
+				if strings.HasSuffix(g, "."+sel.Name) {
+					vc.registerComp(g, compInfo{Sort: ArrSort(SInt, vc.w.ghosts[g].SortOf()), Depth: 1, Ghost: true})
+					freshComps = append(freshComps, g)
+					allocates = true
+				}
+			}
+		}
+	}
 	vc.applyHavoc(st, targets, allocates, freshComps)
 	// results
 	res := vc.freshResults(st, site, resT)
